@@ -81,20 +81,49 @@ pub enum Pos {
 
 #[derive(Clone, Debug, PartialEq, Eq, Serialize, Deserialize)]
 pub enum Op {
-    AllocBytes { n: Size, owned: bool, via: u16 },
-    AllocAligned { ty: u8, n: Size, owned: bool, via: u16 },
-    AllocTyped { ty: u8, owned: bool, via: u16 },
+    AllocBytes {
+        n: Size,
+        owned: bool,
+        via: u16,
+    },
+    AllocAligned {
+        ty: u8,
+        n: Size,
+        owned: bool,
+        via: u16,
+    },
+    AllocTyped {
+        ty: u8,
+        owned: bool,
+        via: u16,
+    },
     /// alloc_bytes(remaining() - slack), kept as a live handle
-    Fill { slack: u8 },
-    Write { h: u16 },
-    Drop { h: u16 },
-    Detach { h: u16 },
-    DeallocDetached { h: u16 },
+    Fill {
+        slack: u8,
+    },
+    Write {
+        h: u16,
+    },
+    Drop {
+        h: u16,
+    },
+    Detach {
+        h: u16,
+    },
+    DeallocDetached {
+        h: u16,
+    },
     CloneArena,
-    DropArena { a: u16 },
+    DropArena {
+        a: u16,
+    },
     DiscardFreelist,
-    SetMinSeg { v: u32 },
-    IncDiscarded { v: u32 },
+    SetMinSeg {
+        v: u32,
+    },
+    IncDiscarded {
+        v: u32,
+    },
     Rewind {
         pos: Pos,
         /// never generated; only in the committed histories of the open known finding (DESIGN.md 11.2): do NOT discard a
@@ -103,7 +132,9 @@ pub enum Op {
         raw: bool,
     },
     Clear,
-    Truncate { n: Size },
+    Truncate {
+        n: Size,
+    },
     Flush,
     /// mode: 0 map_mut, 1 map_copy, 2 map, 3 map_copy_read_only; cap: 0 same, 1 larger, 2 absent, 3 below the stored
     /// cursor (only honoured when the running check asks for it, otherwise the same as 0)
@@ -165,14 +196,20 @@ pub struct Profile {
 }
 
 pub const BOTH: &[Fl] = &[Fl::Sync, Fl::Unsync];
-pub const ALL_BACKENDS: &[(u32, Backend)] = &[(6, Backend::Vec), (2, Backend::Anon), (2, Backend::File)];
+pub const ALL_BACKENDS: &[(u32, Backend)] =
+    &[(6, Backend::Vec), (2, Backend::Anon), (2, Backend::File)];
 pub const MEM_BACKENDS: &[(u32, Backend)] = &[(7, Backend::Vec), (3, Backend::Anon)];
 pub const FILE_ONLY: &[(u32, Backend)] = &[(1, Backend::File)];
 pub const ALL_FL: &[(u32, u8)] = &[(2, 0), (4, 1), (4, 2)];
 pub const LIST_FL: &[(u32, u8)] = &[(1, 1), (1, 2)];
 pub const CAPS: &[(u32, u32, u32)] = &[(2, 0, 16), (6, 24, 512), (2, 513, 4096)];
 /// CAPS plus a rare class of large arenas (buffers of many pages)
-pub const BIG_CAPS: &[(u32, u32, u32)] = &[(3, 0, 16), (9, 24, 512), (3, 513, 4096), (1, 70_000, 300_000)];
+pub const BIG_CAPS: &[(u32, u32, u32)] = &[
+    (3, 0, 16),
+    (9, 24, 512),
+    (3, 513, 4096),
+    (1, 70_000, 300_000),
+];
 pub const SMALL_CAPS: &[(u32, u32, u32)] = &[(1, 0, 16), (8, 24, 400), (1, 401, 1200)];
 
 impl Profile {
@@ -262,7 +299,10 @@ pub fn cfg_strategy(p: &Profile) -> BoxedStrategy<Cfg> {
         ),
     )
         .prop_map(
-            |((flavor, freelist, backend, unify, reserved, cap_extra), (min_seg, max_align, magic, retries, off_pages, create_new, teardown, pb))| Cfg {
+            |(
+                (flavor, freelist, backend, unify, reserved, cap_extra),
+                (min_seg, max_align, magic, retries, off_pages, create_new, teardown, pb),
+            )| Cfg {
                 flavor,
                 freelist,
                 backend,
@@ -290,7 +330,12 @@ pub fn size_strategy(p: &Profile) -> BoxedStrategy<Size> {
         (3, (301u32..=5000).prop_map(Size::Abs).boxed()),
         (6, (0u32..=12).prop_map(|k| Size::Abs(1 << k)).boxed()),
         (10, (-9i8..=9).prop_map(Size::Rem).boxed()),
-        (16, ((0u8..3), (-9i8..=9)).prop_map(|(w, d)| Size::Seg(w, d)).boxed()),
+        (
+            16,
+            ((0u8..3), (-9i8..=9))
+                .prop_map(|(w, d)| Size::Seg(w, d))
+                .boxed(),
+        ),
     ];
     if p.huge {
         v.push((8, (0u8..64).prop_map(Size::MaxMinus).boxed()));
@@ -343,7 +388,12 @@ pub fn op_strategy(p: &Profile) -> BoxedStrategy<Op> {
             .prop_map(|(ty, n, owned, via)| Op::AllocAligned { ty, n, owned, via })
             .boxed(),
     );
-    let drop_tys: Vec<u8> = crate::types::TYPES.iter().enumerate().filter(|(_, t)| t.needs_drop).map(|(i, _)| i as u8).collect();
+    let drop_tys: Vec<u8> = crate::types::TYPES
+        .iter()
+        .enumerate()
+        .filter(|(_, t)| t.needs_drop)
+        .map(|(i, _)| i as u8)
+        .collect();
     let dpct = p.drop_ty_pct;
     let ty_strat = prop_oneof![
         dpct => prop::sample::select(drop_tys),
@@ -355,19 +405,37 @@ pub fn op_strategy(p: &Profile) -> BoxedStrategy<Op> {
             .prop_map(|(ty, owned, via)| Op::AllocTyped { ty, owned, via })
             .boxed(),
     );
-    add(p.w_fill, (0u8..24).prop_map(|slack| Op::Fill { slack }).boxed());
-    add(p.w_write, any::<u16>().prop_map(|h| Op::Write { h }).boxed());
+    add(
+        p.w_fill,
+        (0u8..24).prop_map(|slack| Op::Fill { slack }).boxed(),
+    );
+    add(
+        p.w_write,
+        any::<u16>().prop_map(|h| Op::Write { h }).boxed(),
+    );
     add(p.w_drop, any::<u16>().prop_map(|h| Op::Drop { h }).boxed());
-    add(p.w_detach, any::<u16>().prop_map(|h| Op::Detach { h }).boxed());
-    add(p.w_dealloc, any::<u16>().prop_map(|h| Op::DeallocDetached { h }).boxed());
+    add(
+        p.w_detach,
+        any::<u16>().prop_map(|h| Op::Detach { h }).boxed(),
+    );
+    add(
+        p.w_dealloc,
+        any::<u16>().prop_map(|h| Op::DeallocDetached { h }).boxed(),
+    );
     add(p.w_clone, Just(Op::CloneArena).boxed());
-    add(p.w_droparena, any::<u16>().prop_map(|a| Op::DropArena { a }).boxed());
+    add(
+        p.w_droparena,
+        any::<u16>().prop_map(|a| Op::DropArena { a }).boxed(),
+    );
     add(p.w_discard, Just(Op::DiscardFreelist).boxed());
     add(
         p.w_minseg,
-        prop_oneof![prop::sample::select(vec![0u32, 1, 7, 8, 9, 20, 48, 64]), 0u32..200]
-            .prop_map(|v| Op::SetMinSeg { v })
-            .boxed(),
+        prop_oneof![
+            prop::sample::select(vec![0u32, 1, 7, 8, 9, 20, 48, 64]),
+            0u32..200
+        ]
+        .prop_map(|v| Op::SetMinSeg { v })
+        .boxed(),
     );
     if p.big_incdisc {
         add(
@@ -382,9 +450,17 @@ pub fn op_strategy(p: &Profile) -> BoxedStrategy<Op> {
             .boxed(),
         );
     } else {
-        add(p.w_incdisc, (0u32..5000).prop_map(|v| Op::IncDiscarded { v }).boxed());
+        add(
+            p.w_incdisc,
+            (0u32..5000).prop_map(|v| Op::IncDiscarded { v }).boxed(),
+        );
     }
-    add(p.w_rewind, pos_strategy().prop_map(|pos| Op::Rewind { pos, raw: false }).boxed());
+    add(
+        p.w_rewind,
+        pos_strategy()
+            .prop_map(|pos| Op::Rewind { pos, raw: false })
+            .boxed(),
+    );
     add(p.w_clear, Just(Op::Clear).boxed());
     add(
         p.w_truncate,
@@ -399,8 +475,20 @@ pub fn op_strategy(p: &Profile) -> BoxedStrategy<Op> {
     add(p.w_flush, Just(Op::Flush).boxed());
     add(
         p.w_reopen,
-        (weighted(p.reopen_modes), prop_oneof![9 => 0u8..3, 1 => Just(3u8)], any::<bool>(), (0u8..3).prop_map(|x| x == 0), prop_oneof![2 => Just(0u8), 1 => 0u8..32])
-            .prop_map(|(mode, cap, create, pb, flags)| Op::Reopen { mode, cap, create, pb, flags })
+        (
+            weighted(p.reopen_modes),
+            prop_oneof![9 => 0u8..3, 1 => Just(3u8)],
+            any::<bool>(),
+            (0u8..3).prop_map(|x| x == 0),
+            prop_oneof![2 => Just(0u8), 1 => 0u8..32],
+        )
+            .prop_map(|(mode, cap, create, pb, flags)| Op::Reopen {
+                mode,
+                cap,
+                create,
+                pb,
+                flags,
+            })
             .boxed(),
     );
     Union::new_weighted(v).boxed()
@@ -416,12 +504,20 @@ pub struct CaseA {
 /// `n` byte blocks with tied sizes, fill the rest of the arena, then drop a subset of the blocks.
 pub fn prelude_strategy() -> BoxedStrategy<Vec<Op>> {
     let sizes = prop::sample::select(vec![24u32, 32, 32, 40, 48, 48, 64, 72, 100, 17, 9]);
-    (prop::collection::vec((sizes, any::<bool>()), 2..=9), any::<bool>(), 0u8..3)
+    (
+        prop::collection::vec((sizes, any::<bool>()), 2..=9),
+        any::<bool>(),
+        0u8..3,
+    )
         .prop_map(|(blocks, owned_some, slack)| {
             let n = blocks.len();
             let mut ops = Vec::new();
             for (k, (sz, _)) in blocks.iter().enumerate() {
-                ops.push(Op::AllocBytes { n: Size::Abs(*sz), owned: owned_some && k % 3 == 0, via: 0 });
+                ops.push(Op::AllocBytes {
+                    n: Size::Abs(*sz),
+                    owned: owned_some && k % 3 == 0,
+                    via: 0,
+                });
             }
             ops.push(Op::Fill { slack });
             let total = n + 1;
@@ -445,7 +541,11 @@ pub fn case_strategy(p: &Profile) -> BoxedStrategy<CaseA> {
         (100 - pct.min(99)) => Just(Vec::<Op>::new()),
         pct.max(1) => prelude_strategy(),
     ];
-    (cfg_strategy(p), prelude, prop::collection::vec(op_strategy(p), 0..=p.max_ops))
+    (
+        cfg_strategy(p),
+        prelude,
+        prop::collection::vec(op_strategy(p), 0..=p.max_ops),
+    )
         .prop_map(|(cfg, mut pre, ops)| {
             pre.extend(ops);
             CaseA { cfg, ops: pre }
